@@ -474,7 +474,7 @@ def build():
     def tag_lines(text, needle, tag):
         # the step proofs restate a loop clause for the new iteration: a failure there IS that clause failing
         return '\n'.join(ln + '  // @ob ' + tag if needle in ln and '@ob' not in ln else ln for ln in text.split('\n'))
-    PROOFS['L5_end'] = tag_lines(PROOFS['L5_end'], 'assert forall', 'C19.conns.apply.purge_removes_io_handle_and_nak_records_of_exactly_the_listed_ids')
+    PROOFS['L5_end'] = tag_lines(PROOFS['L5_end'], 'assert forall', 'C05+C19.conns.apply.purge_removes_io_handle_and_nak_records_of_exactly_the_listed_ids')
     PROOFS['L3_end'] = tag_lines(PROOFS['L3_end'], 'assert forall', 'C19.conns.apply.purge_list_is_exactly_the_ids_of_the_unlisted_links')
     u.add(u.fn(CN, 'apply_connection_changes', sub='conns', erase_async=True,
                pre_rewrite=[FMT,
@@ -488,11 +488,11 @@ def build():
                    C('C19.conns.apply.survivors_are_exactly_the_still_listed_links_unchanged_and_in_order',
                      """final(connections)@.len() >= keep_desired(old(connections)@, %(H)s).len()
             && final(connections)@.subrange(0, keep_desired(old(connections)@, %(H)s).len() as int) =~= keep_desired(old(connections)@, %(H)s)""" % dict(H=H)),
-                   C('C19.conns.apply.removed_links_lose_their_io_handle_and_nak_records_and_nothing_else_is_purged',
+                   C('C05+C19.conns.apply.removed_links_lose_their_io_handle_and_nak_records_and_nothing_else_is_purged',
                      """exists|ids: Seq<u64>| #[trigger] removed_ok(old(connections)@, old(connections)@.len() as int, ids, %(H)s)
             && tracker_purged(old(seq_tracker).entries@, final(seq_tracker).entries@, ids)
             && io_purged(old(conn_io)@, final(conn_io)@, ids, final(connections)@.subrange(keep_desired(old(connections)@, %(H)s).len() as int, final(connections)@.len() as int))""" % dict(H=H)),
-                   C('C19.conns.apply.surviving_links_keep_their_io_handle_and_nak_records',
+                   C('C05+C19.conns.apply.surviving_links_keep_their_io_handle_and_nak_records',
                      """forall|i: int| 0 <= i < old(connections)@.len() && desired(%(H)s, (#[trigger] old(connections)@[i]).label@) ==>
                 (old(conn_io)@.contains_key(old(connections)@[i].conn_id)
                     && !has_id(final(connections)@.subrange(keep_desired(old(connections)@, %(H)s).len() as int, final(connections)@.len() as int), old(connections)@[i].conn_id)
@@ -523,7 +523,7 @@ def build():
                                                     'connections@.subrange(connections_rx as int, connections.len() as int) =~= connections_orig.subrange(connections_seen, connections_orig.len() as int)'],
                                                dec='connections_orig.len() - connections_seen', after=PROOFS['RET_after']),
                    'removed_conn_ids[': dict(inv=['conn_id_nx <= removed_conn_ids.len()',
-                                                               C('C19.conns.apply.purge_removes_io_handle_and_nak_records_of_exactly_the_listed_ids',
+                                                               C('C05+C19.conns.apply.purge_removes_io_handle_and_nak_records_of_exactly_the_listed_ids',
                                                                  'purged(old(conn_io)@, conn_io@, old(seq_tracker).entries@, seq_tracker.entries@, removed_conn_ids@, conn_id_nx as int)')],
                                                           dec='removed_conn_ids.len() - conn_id_nx', begin=PROOFS['L5_begin'], end=PROOFS['L5_end']),
                    'new_ips_needed.push(': dict(inv=['new_ips_needed_nx <= new_ips.len()', 'forall|l: Seq<char>| #[trigger] current_labels@.contains(l) == has_label(old(connections)@, old(connections)@.len() as int, l)',
